@@ -879,8 +879,8 @@ def list_method(ctx, r, s, name, args, kwargs):
 def dict_method(ctx, r, s, name, args, kwargs):
     d = s["v"]
     if name == "get":
-        hk = hashable(args[0])
-        if hk in d:
+        hk = dict_slot(ctx, s, args[0])
+        if hk is not None:
             return d[hk][1]
         return args[1] if len(args) > 1 else kwargs.get("default", None)
     if name == "items":
@@ -890,8 +890,8 @@ def dict_method(ctx, r, s, name, args, kwargs):
     if name == "keys":
         return ctx.alloc("iter", init={"v": [k for k, _ in d.values()]})
     if name == "pop":
-        hk = hashable(args[0])
-        if hk in d:
+        hk = dict_slot(ctx, s, args[0])
+        if hk is not None:
             s["v"] = dict(d)
             return s["v"].pop(hk)[1]
         if len(args) > 1:
@@ -908,13 +908,15 @@ def dict_method(ctx, r, s, name, args, kwargs):
             else:      # iterable of (key, value) pairs
                 pairs = [tuple(unpack(ctx, kv, 2)) for kv in concrete_iter(ctx, args[0], must=True)]
             for k, v in pairs:
-                s["v"][hashable(k)] = (k, v)
+                hk = dict_slot(ctx, s, k)
+                s["v"][hk if hk is not None else dict_new_slot(k)] = (k, v)
         for k, v in kwargs.items():
             s["v"][k] = (k, v)
         return None
     if name == "setdefault":
-        hk = hashable(args[0])
-        if hk not in d:
+        hk = dict_slot(ctx, s, args[0])
+        if hk is None:
+            hk = dict_new_slot(args[0])
             s["v"] = dict(d)
             s["v"][hk] = (args[0], args[1] if len(args) > 1 else None)
         return s["v"][hk][1]
